@@ -64,6 +64,7 @@ class Gen:
         self.pipeline = rng.random() < pipeline_p      # one deep pipeline: unary operations keep extending the last entry
         self.ill_flags_p = ill_flags_p
         self.force_last = False
+        self.prefer = None
         self.last_kind = None
         self.preds = []
         self.cur_eng = None
@@ -181,6 +182,9 @@ class Gen:
         cand = [i for i in range(n) if pred is None or pred(self.pool[i])]
         if not cand:
             return None
+        if self.prefer is not None:
+            pc = [i for i in cand if self.prefer(self.pool[i])]
+            cand = pc or cand
         if self.force_last or (self.pipeline and r.random() < 0.85):
             return cand[-1]
         if r.random() < 0.55:
@@ -670,7 +674,7 @@ class Gen:
         if i is None:
             return
         sh = self.pool[i]
-        k = r.choice(["atleast", "atleast", "stride", "stride", "orderby"])
+        k = r.choice(["atleast", "atleast", "stride", "stride", "orderby", "orderby"])
         if k == "orderby" and not sh.cols:
             k = "stride"
         op = {"k": "custom", "t": i, "op": k}
@@ -684,7 +688,10 @@ class Gen:
             op["desc"] = r.random() < 0.4
         fl = self.flags(sh)
         if fl.get("pe") == "sql":
-            fl = {}
+            # the SQL engine supports none of these: with backtracking only (nothing commutes with a user-defined
+            # operation by default) the call must simply be applied where it stands
+            fl.pop("tr", None)
+            fl.pop("rq", None)
         op.update(fl)
         self.ops.append(op)
         self.pool.append(sh.copy(eng=self._after_flags(sh, fl)))
@@ -916,6 +923,19 @@ class Gen:
         """Derive one ill-typing edit from a call the generator believes acceptable."""
         r = self.rng
         kind = r.choice(["calc", "calc", "proj", "sel", "sort", "slice", "chain", "join", "join"])
+        if len(self.engines) > 1 and r.random() < 0.25:
+            # ... issued on the relation a preferred-engine call has just returned (whatever backtracking rebuilt
+            # must still know its own columns and engine)
+            saved_fp, self.flags_p = self.flags_p, 1.0
+            self.prefer = lambda s: s.multi        # (somewhere downstream of a transfer, where backtracking can act)
+            m = len(self.ops)
+            try:
+                getattr(self, "g_" + r.choice(["calc", "calc", "proj", "sel", "sort"]))()
+            finally:
+                self.flags_p = saved_fp
+                self.prefer = None
+            if len(self.ops) > m:
+                self.force_last = True
         n_ops = len(self.ops)
         n_pool = len(self.pool)
         saved_fp = self.flags_p
@@ -945,6 +965,8 @@ class Gen:
                 if r.random() < 0.5:
                     # first a *valid* call with the unrestricted twin of the same function on the same relation ...
                     free = [t for t in ["x", "y", "z", "w"] if t not in tgt.cols and t != base["tag"]]
+                    if r.random() < 0.5:
+                        free = [base["tag"]]     # the very same tag: the two operations compare equal
                     if free:
                         self.ops.append({"k": "calc", "t": base["t"], "tag": free[0], "e": ["udfu", "itonly", base["e"]]})
                         self.pool.append(tgt.copy(cols=tgt.cols | {free[0]}))
@@ -969,6 +991,11 @@ class Gen:
                 base["p"] = ["and", base["p"], extra] if r.random() < 0.6 else extra
                 edit = "missing"
             elif tgt.eng == "sql" and tgt.cols:
+                if r.random() < 0.5:
+                    # first the *valid* selection through the unrestricted twin (an equal-looking operation) ...
+                    self.ops.append({"k": "sel", "t": base["t"],
+                                     "p": ["cmp", "gt", ["udfu", "itonly", ["ref", sorted(tgt.cols)[0]]], ["lit", 0]]})
+                    self.pool.append(tgt.copy())
                 base["p"] = ["cmp", "gt", ["udf", "itonly", ["ref", sorted(tgt.cols)[0]]], ["lit", 0]]
                 if base.get("pe") not in (None, "sql"):
                     if r.random() < 0.5:
